@@ -107,6 +107,14 @@ def run(model, tier="quick"):
     # payouts bounded by the position in the same units (Aave withdraw / repay-with-collateral clamp)
     from .C10 import ledgers
     ledgers(res, model, ["withdraw", "repay"])
+    # "no operation raises the net value": the valuation counts every holding exactly once (formulas of C01) and the
+    # Uniswap add / remove primitives move exactly the used amounts (ledgers of C07)
+    from .C01 import valuation_refs
+    from .C07 import uni_ledgers
+    if "R-FORMULA" not in res.rules:
+        res.rules.append("R-FORMULA")
+    valuation_refs(res, model)
+    uni_ledgers(res, model)
     # a lent LP position redeemed into its vault: the (weth, osqth) amounts the vault absorbs are the pool's amounts of
     # those tokens whatever the pool's quote token is (a swapped pair credits collateral the LP never held)
     from . import C01 as _C01
